@@ -383,6 +383,35 @@ MALFORMED = {"json": [b"{", b"{}", b"5", b"null", b'{"modelType":"Submodel"}', b
                       b'{"modelType":"Property","idShort":"a b","valueType":"xs:string"}', b'{"modelType":"Nonsense","id":"x"}'],
              "xml": [b"<a", b"<a/>", b"", b"<?xml version='1.0'?>", b"\xff\xfe", b'<aas:submodel xmlns:aas="https://admin-shell.io/aas/3/0"/>',
                      b'<aas:submodel xmlns:aas="https://admin-shell.io/aas/3/0"><aas:id></aas:id></aas:submodel>']}
+# (round 5) well-formed documents of every class that are malformed in an OPTIONAL, NESTED position only (a semantic id without keys / of an
+# unknown type, a language string without text, a value id that is no reference): a strict reader rejects them whichever its mode
+# (full or stripped), a failsafe reader would log and drop the part
+_NSX = b' xmlns:aas="https://admin-shell.io/aas/3/0"'
+_BADREF_X = b"<aas:semanticId><aas:type>Nonsense</aas:type><aas:keys/></aas:semanticId>"
+_BADLANG_X = b"<aas:description><aas:langStringTextType><aas:language>en</aas:language></aas:langStringTextType></aas:description>"
+_BADREF_J = b'"semanticId":{"type":"Nonsense","keys":[]}'
+_BADLANG_J = b'"description":[{"language":"en"}]'
+MALFORMED["json"] += [
+    b'{"modelType":"Submodel","id":"urn:nested:1",' + _BADREF_J + b"}",
+    b'{"modelType":"Submodel","id":"urn:nested:2",' + _BADLANG_J + b"}",
+    b'{"modelType":"Submodel","id":"urn:nested:3","administration":{"version":"x y"}}',
+    b'{"modelType":"Property","idShort":"x1","valueType":"xs:string",' + _BADREF_J + b"}",
+    b'{"modelType":"Property","idShort":"x1","valueType":"xs:string","valueId":{"type":"ExternalReference"}}',
+    b'{"modelType":"ConceptDescription","id":"urn:nested:4",' + _BADLANG_J + b"}",
+    b'{"modelType":"AssetAdministrationShell","id":"urn:nested:5","assetInformation":{"assetKind":"Instance","globalAssetId":"urn:a"},' + _BADLANG_J + b"}",
+    b'{"type":"q1","valueType":"xs:string","valueId":{"type":"ExternalReference"}}',
+]
+MALFORMED["xml"] += [
+    b"<aas:submodel" + _NSX + b"><aas:id>urn:nested:1</aas:id>" + _BADREF_X + b"</aas:submodel>",
+    b"<aas:submodel" + _NSX + b">" + _BADLANG_X + b"<aas:id>urn:nested:2</aas:id></aas:submodel>",
+    b"<aas:submodel" + _NSX + b"><aas:administration><aas:version>x y</aas:version></aas:administration><aas:id>urn:nested:3</aas:id></aas:submodel>",
+    b"<aas:property" + _NSX + b"><aas:idShort>x1</aas:idShort>" + _BADREF_X + b"<aas:valueType>xs:string</aas:valueType></aas:property>",
+    b"<aas:property" + _NSX + b"><aas:idShort>x1</aas:idShort><aas:valueType>xs:string</aas:valueType><aas:valueId><aas:type>ExternalReference</aas:type></aas:valueId></aas:property>",
+    b"<aas:conceptDescription" + _NSX + b">" + _BADLANG_X + b"<aas:id>urn:nested:4</aas:id></aas:conceptDescription>",
+    b"<aas:assetAdministrationShell" + _NSX + b">" + _BADLANG_X + b"<aas:id>urn:nested:5</aas:id><aas:assetInformation><aas:assetKind>Instance</aas:assetKind>"
+    b"<aas:globalAssetId>urn:a</aas:globalAssetId></aas:assetInformation></aas:assetAdministrationShell>",
+    b"<aas:qualifier" + _NSX + b"><aas:type>q1</aas:type><aas:valueType>xs:string</aas:valueType><aas:valueId><aas:type>ExternalReference</aas:type></aas:valueId></aas:qualifier>",
+]
 # nested deeper than the parsers follow (json: the interpreter's recursion limit; lxml: 256 levels)
 TOO_DEEP = {"json": [b"[" * 100000, b'{"a":' * 50000 + b"1" + b"}" * 50000, b"[" * 5000 + b"]" * 5000],
             "xml": [b"<a>" * 300 + b"</a>" * 300, b'<aas:submodel xmlns:aas="https://admin-shell.io/aas/3/0">' + b"<aas:a>" * 2000 + b"</aas:a>" * 2000 + b"</aas:submodel>"]}
@@ -450,6 +479,33 @@ def url_of(R: Dict[str, Any]) -> str:
     return u
 
 
+_APP_CLASSES: Dict[Any, Any] = {}
+
+
+def reclass_store(store) -> None:
+    """every identifiable of the store and every referable below it that is an instance of an SDK class becomes an instance of
+    a (cached) application-defined subclass of that class"""
+    from basyx.aas import model
+    subs = set(_APP_CLASSES.values())
+
+    def walk(o):
+        if isinstance(o, model.Referable):
+            c = o.__class__
+            if c not in subs:
+                if c not in _APP_CLASSES:
+                    _APP_CLASSES[c] = type("App" + c.__name__, (c,), {})
+                    subs.add(_APP_CLASSES[c])
+                try:
+                    o.__class__ = _APP_CLASSES[c]
+                except TypeError:
+                    pass
+            if isinstance(o, model.UniqueIdShortNamespace):
+                for ch in o:
+                    walk(ch)
+    for o in list(store):
+        walk(o)
+
+
 class Server:
     """A real WSGIApp over a real object store, driven in-process."""
 
@@ -465,6 +521,9 @@ class Server:
         self.file_backed = file_backed
         self.dir = None
         self.last_exc = None
+        # (round 5, C11) before every request the stored objects become instances of application-defined subclasses of their
+        # classes (an application may hand WSGIApp a store filled through its own deriving decoder); in-memory stores only
+        self.reclass = False
         if file_backed:
             from basyx.aas.backend import local_file
             self.dir = tempfile.mkdtemp(prefix="c10-")
@@ -512,6 +571,8 @@ class Server:
                              + mime.encode("utf-8", "surrogatepass") + b"\r\n\r\n" + base64.b64decode(content) + b"\r\n")
             kw = {"data": b"".join(parts) + f"--{bd}--\r\n".encode(), "content_type": f"multipart/form-data; boundary={bd}"}
         self.last_exc = None
+        if self.reclass and not self.file_backed:
+            reclass_store(self.store)
         try:
             resp = self.client.open(url_of(R), method=R["m"], headers=headers, **kw)
         except Exception as e:  # an exception left the WSGI callable
@@ -539,13 +600,22 @@ class Server:
         An object that cannot be abstracted/serialised is represented by the reason (constant across a request that leaves it alone)."""
         from basyx.aas.adapter.json import AASToJsonEncoder
         objs = []
+        def by_ids(x):
+            # children addressed by idShort are a set: a file-backed store hands out the live object (its own order) or, once that
+            # was collected, a fresh one (the document's order) - the order is no stored data
+            if isinstance(x, dict):
+                x = {k: by_ids(v) for k, v in x.items()}
+                if isinstance(x.get("ch"), list) and all(isinstance(c, dict) and c.get("ids") is not None for c in x["ch"]):
+                    x["ch"] = sorted(x["ch"], key=lambda c: str(c["ids"]))
+                return x
+            return [by_ids(v) for v in x] if isinstance(x, list) else x
         for o in self.store:
             try:
-                a = json.dumps(sdk_abs(o), sort_keys=True)
+                a = json.dumps(by_ids(sdk_abs(o)), sort_keys=True)
             except Exception as e:
                 a = f"not-abstracted:{type(e).__name__}"
             try:
-                j = json.dumps(o, cls=AASToJsonEncoder, sort_keys=True)
+                j = json.dumps(canon_doc(json.loads(json.dumps(o, cls=AASToJsonEncoder))), sort_keys=True)
             except Exception as e:
                 j = f"not-serialised:{type(e).__name__}"
             objs.append([str(getattr(o, "id", None)), a, j])
